@@ -233,7 +233,7 @@ class MQPart:
             # a run() that loops without yielding never comes back from env.step(): bound the run ourselves
             old_h = signal.signal(signal.SIGALRM, _hang)
             t0 = time.time()
-            old_t = signal.setitimer(signal.ITIMER_REAL, 4.0)
+            old_t = signal.setitimer(signal.ITIMER_REAL, 2.0)
             try:
                 log = h.run(max_steps=20000, until=HORIZON)
             finally:
